@@ -53,6 +53,18 @@ func decodeToken(tok string, initial bool) ([]byte, bool) {
 	return b, true
 }
 
+// saslTaken counts the Auth callbacks that handed out a mechanism (each takes
+// the next SASL script of the backend).
+func saslTaken(evs []harness.Event) int {
+	n := 0
+	for _, e := range evs {
+		if e.CB == "Auth" && !e.Begin && e.Err == nil {
+			n++
+		}
+	}
+	return n
+}
+
 func c09Run(c c09Case) Verdict {
 	cfg := harness.Config{LMTP: c.LMTP, AllowInsecureAuth: c.InsecureAuth, TLS: c.TLS}
 	script := harness.Script{AuthSession: c.AuthBackend, Mechs: []string{"PLAIN", "XTEST"}, SASL: c.SASL, LMTPSession: c.LMTP}
@@ -262,10 +274,17 @@ func c09Run(c c09Case) Verdict {
 			default:
 				// run the model of the exchange
 				var sc harness.SASLScript
+				// every Auth callback takes the next script - also one made
+				// for an attempt that was then refused before the mechanism
+				// got anything (whether the mechanism is created before or
+				// after the initial response is decoded is the server's choice)
+				nSASL = saslTaken(r.B.Events()) - saslTaken(win)
+				if nSASL < 0 {
+					nSASL = 0
+				}
 				if nSASL < len(c.SASL) {
 					sc = c.SASL[nSASL]
 				}
-				nSASL++
 				var wantCodes []int
 				var wantChal [][]byte
 				var mech [][]byte
